@@ -27,7 +27,6 @@ ASSUMPTIONS = ["the user function is a pure function, continuous on the bracket"
                "theorems are about exact real arithmetic (rnd = id); the driver rounds the new iterate to 2^-200"]
 TRUSTED = ["mpmath evaluation of atan/erf/tanh/pow/exp/log/cos as the sign reference for the transcendental families"]
 
-ROUNDING_CLAUSE = "function evaluated outside the bracket by rounding (within 8 ulp of the wider end)"
 MARGIN = Fraction(1, 2 ** 26)
 KNOISE = 64
 U = Fraction(1, 2 ** 53)
@@ -352,12 +351,7 @@ def oracle(q, I, ctx):
     r = I["r"]
     bad = [x for x in I["xs"] if not (lo <= x <= hi)]
     if bad:
-        ulp8 = 8 * math.ulp(max(abs(lo), abs(hi)))
-        far = [x for x in bad if x < lo - ulp8 or x > hi + ulp8 or math.isnan(x)]
-        if far:
-            out.append(fail("prop", "function evaluated outside the bracket", "%r not in [%r,%r]" % (far[0], lo, hi)))
-        else:
-            out.append(fail("prop", ROUNDING_CLAUSE, "%r not in [%r,%r]" % (bad[0], lo, hi)))
+        out.append(fail("prop", "function evaluated outside the bracket", "%r not in [%r,%r]" % (bad[0], lo, hi)))
     if math.isnan(r) or not (lo <= r <= hi):
         out.append(fail("prop", "returned point is not inside the bracket", "%r not in [%r,%r]" % (r, lo, hi)))
         return out
@@ -381,7 +375,8 @@ def oracle(q, I, ctx):
     pts = [feval(d, u), feval(d, Fraction(r)), feval(d, v)]
     if any(p is None for p in pts):
         return out
-    if sgn(pts[0][0]) * sgn(pts[2][0]) <= 0:
+    sg = [sgn(p[0]) for p in pts]
+    if 0 in sg or len(set(sg)) > 1:     # a zero or a sign change inside [r-acc, r+acc] (clipped to the bracket)
         return out
     noise = min((abs(p[0]) / p[1]) if p[1] else 0 for p in pts)
     if noise <= KNOISE * (float(U) if not isinstance(noise, Fraction) else U):
@@ -426,19 +421,27 @@ def compare(rq, impl, model, ctx):
         xs = I["xs"]
         lo, hi = Fraction(min(q["xl"], q["xr"])), Fraction(max(q["xl"], q["xr"]))
 
+        def it(i):
+            return min(max((i - 2) // 2, 0), k - 1) if k else 0
+
+        def sens(j):
+            # assumed growth of a rounding-level perturbation of the iterates along the trajectory (x4 per iteration):
+            # slowly converging runs (multiple roots, one-sided creeping) amplify it; beyond ~20 iterations the
+            # trace is no longer compared
+            return min(Fraction(1), Fraction(4 ** j, 2 ** 44))
+
         def tol(i):
             if i < 2:
                 return Fraction(0)
-            j = min((i - 2) // 2, k - 1) if k else 0
+            j = it(i)
             wj = mw[j][1] if k else hi - lo
             wprev = mw[j - 1][1] if j > 0 else wj
-            return wj / 2 ** 12 + wprev / 2 ** 20 + 32 * U * abs(mxs[min(i, n - 1)])
+            return (wj + wprev / 2 ** 8) * (Fraction(1, 2 ** 12) + sens(j)) + 32 * U * abs(mxs[min(i, n - 1)])
 
         def cummargin(i):
             if not k:
                 return Fraction(1)
-            j = min(max((i - 2) // 2, 0), k - 1)
-            return min(m for m, _ in mw[:j + 1])
+            return min(m for m, _ in mw[:it(i) + 1])
 
         div = None
         for i in range(min(len(xs), n)):
@@ -450,7 +453,7 @@ def compare(rq, impl, model, ctx):
         if div is None and (("maxiter" == mkind) != bool(I["maxit"])):
             div = (n - 1, "exit path impl maxit=%d model %s" % (I["maxit"], mkind))
         if div:
-            if cummargin(div[0]) < MARGIN:
+            if cummargin(div[0]) < max(MARGIN, 8 * sens(it(div[0]))):
                 ctx["excused"] += 1; excused = True
             else:
                 out.append(fail("corr", "trace of abscissae differs from the model (iterate / re-bracketing / termination)",
